@@ -611,6 +611,12 @@ def runIndex (j : Json) : Except String String := do
       | .ok r => pure s!"ok {showIdx r.shape}|{String.intercalate ";" (r.sources.map showIdx)}"
       | .error e => pure (showErr e)
   | _ =>
+    match j.getObjVal? "view" with
+    | .ok (.arr o) =>                     -- a view (item on the finite dimensions) read at the orders `o`
+        match view shape item (← natList o) with
+        | .ok r => pure s!"ok {showIdx r.shape}|{String.intercalate ";" (r.sources.map showIdx)}|{String.intercalate ";" (r.evaluated.map showIdx)}"
+        | .error e => pure (showErr e)
+    | _ =>
     let ninf ← j.getObjValAs? Nat "ninf"
     match getitem shape ninf item with
     | .ok r => pure s!"ok {showIdx r.shape}|{String.intercalate ";" (r.sources.map showIdx)}|{String.intercalate ";" (r.evaluated.map showIdx)}"
